@@ -11,8 +11,8 @@ META = {
             'explicit expectations. C14-b: all tables of 3 user snippets over a menu of 9 (self/mutually/3-cyclic) bodies.',
     'bounds': {
         'quick': 'every built-in snippet of html, xsl and pug (table-exhaustive) used alone, and with [t=V] / {T} / *N / `/` / >ey '
-                 'where the definition is a single top-level element chain; V,T 1..2 chars, N in 1..3; 3 user tables x 7 '
-                 'decorations; 729 cyclic tables x 3 probes',
+                 'where the definition is a single top-level element chain; V,T 1..2 chars, N in 1..3; 6 user snippets x 13 decorated uses (incl. definitions ending in a nameless element or bare text); a failing resolution '
+                 '(4 broken nested definitions x 3 nesting depths) followed by 4 probes on the repaired table; 729 cyclic tables x 3 probes',
         'thorough': 'the same with format on as well, reverseAttributes, N in 1..4',
     },
     'outside_claim': ['decorations on built-in snippets whose definition has several top-level nodes, groups, `$` or text on the top '
@@ -152,7 +152,7 @@ def mk_builtin(syntax, deco, part, nparts, fmt):
                           'markup.attributes.merge_attributes', 'snippets.parse_snippets']}
 
 
-USER = {'foo': 'ea+eb', 'bar': 'ea>eb+ec', 'baz': '(ea>eb)+ec[u=w]'}
+USER = {'foo': 'ea+eb', 'bar': 'ea>eb+ec', 'baz': '(ea>eb)+ec[u=w]', 'qux': '.foo[u=w]', 'txt': '{hello}', 'imp': 'ea>.in'}
 # expectations as rope pieces; 0 = payload V, 1 = repeat marker
 USER_CASES = [
     ('foo[t=QZ1]', ['<ea t="', 0, '"></ea><eb t="', 0, '"></eb>']),
@@ -164,6 +164,11 @@ USER_CASES = [
     ('baz.c>ey{QZ1}', ['<ea class="c"><eb></eb></ea><ec u="w" class="c"><ey>', 0, '</ey></ec>']),
     ('ex>foo[t=QZ1]+bar', ['<ex><ea t="', 0, '"></ea><eb t="', 0, '"></eb><ea><eb></eb><ec></ec></ea></ex>']),
     ('baz[u=QZ1]', ['<ea u="', 0, '"><eb></eb></ea><ec u="', 0, '"></ec>']),
+    # definitions whose deepest node has no written name (implied tag, bare text): children still go into it
+    ('qux>ey{QZ1}', ['<div class="foo" u="w"><ey>', 0, '</ey></div>']),
+    ('imp.k>ey', ['<ea class="k"><div class="in"><ey></ey></div></ea>']),
+    ('txt>ey', ['hello<ey></ey>']),
+    ('ex>qux*2>ey', ['<ex><div class="foo" u="w"><ey></ey></div><div class="foo" u="w"><ey></ey></div></ex>']),
 ]
 
 
@@ -242,6 +247,50 @@ def mk_cycles(probe):
             'functions': ['markup.snippets.resolve_snippets (cycle guard `stack`)', 'walk_resolve']}
 
 
+BROKEN = ['eb[t="x', 'eb+*', 'eb)', "eb[t='"]          # definitions the parser rejects
+AFTER = [('outer', '<ea><eb></eb></ea>'), ('mid', '<ec><ea><eb></eb></ea></ec>'), ('inner', '<eb></eb>'),
+         ('ex>outer+inner', '<ex><ea><eb></eb></ea><eb></eb></ex>')]
+
+
+def mk_after_failure():
+    """A resolution that fails inside a nested snippet must not change how later calls resolve snippets."""
+    import emmet
+    from emmet.scanner import ScannerException
+    from emmet.token_scanner import TokenScannerException
+    from vf.util import untraced, pick_int
+    good = {'mid': 'ec>outer', 'outer': 'ea>inner', 'inner': 'eb'}
+
+    def harness(wrong):
+        def h(bi: int, first: int, probe: int, fresh_cfg: bool):
+            if not (0 <= bi < len(BROKEN) and 0 <= first <= 2 and 0 <= probe < len(AFTER)):
+                return 'skip'
+            bi, first, probe = pick_int(bi, 0, len(BROKEN) - 1), pick_int(first, 0, 2), pick_int(probe, 0, len(AFTER) - 1)
+            with untraced():
+                bad = dict(good, inner=BROKEN[bi])
+                opts = {'output.format': False}
+                cfg_bad = {'snippets': bad, 'options': opts}
+                try:
+                    emmet.expand(['inner', 'outer', 'mid'][first], cfg_bad)
+                    raised = False
+                except (ScannerException, TokenScannerException):
+                    raised = True
+                cfg = {'snippets': dict(good), 'options': dict(opts)}
+                if not fresh_cfg:
+                    cfg_bad['snippets'] = dict(good)      # the caller repairs the table in the same config object
+                    cfg = cfg_bad
+                out = emmet.expand(AFTER[probe][0], cfg)
+            if not raised:
+                return 'broken_definition_accepted'
+            exp = AFTER[probe][1] + (' ' if wrong else '')
+            return True if out == exp else 'alias_not_expanded_after_an_earlier_failure:' + AFTER[probe][0]
+        return h
+    return {'fn': harness(False), 'twin': harness(True), 'witnesses': [dict(bi=0, first=1, probe=0, fresh_cfg=True), dict(bi=1, first=2, probe=3, fresh_cfg=False)],
+            'assumptions': ['user table mid -> outer -> inner; first call expands inner/outer/mid while `inner` has a definition from %r (raises at '
+                            'nesting depth 0/1/2); second call uses the repaired table (fresh config or the same dict) and one of the probes %r; '
+                            'calls are concrete per path and run outside the tracer' % (BROKEN, [a for a, _ in AFTER])],
+            'functions': ['markup.snippets.resolve_snippets (cycle-guard stack across calls)', 'markup.parse']}
+
+
 def jobs(tier):
     q = tier == 'quick'
     out = []
@@ -260,6 +309,8 @@ def jobs(tier):
                 continue      # attribute order under reverse mode is C03's subject: these cases would be vacuous
             out.append(Job('C14-c/user/%s/rev=%d' % (USER_CASES[ci][0], rev), 'vf.props.c14:mk_user', dict(ci=ci, reverse=rev),
                            shape='H', bound='3 user snippets', budget=600, weight=20))
+    out.append(Job('C14-d/after-failure', 'vf.props.c14:mk_after_failure', {}, shape='H', bound='4 broken bodies x 3 depths x 4 probes x 2',
+                   budget=900, weight=150))
     for probe in ('k1', 'k1>k2', 'k3*2+k1'):
         out.append(Job('C14-b/cycles/%s' % probe, 'vf.props.c14:mk_cycles', dict(probe=probe), shape='H',
                        bound='729 tables', budget=1500, weight=400))
